@@ -17,7 +17,8 @@ def outToJson (o : Out) : Json :=
     ("nodes", Json.arr (o.nodes.map xnodeToJson).toArray),
     ("saveto", pairsToJson o.saveto),
     ("version", match o.version with | some (a, v) => Json.arr #[Json.str a, Json.str v] | none => Json.null),
-    ("xmlns", match o.xmlns with | some (p, u) => Json.arr #[jstr p, jstr u] | none => Json.null)]
+    ("xmlns", match o.xmlns with | some (p, u) => Json.arr #[jstr p, jstr u] | none => Json.null),
+    ("metaKids", Json.arr (o.metaKids.map jstr).toArray)]
 
 def rejToJson : Rej → Json
   | .msg m => Json.mkObj [("outcome", "rejected"), ("kind", "msg"), ("msg", jstr m)]
@@ -38,11 +39,13 @@ def opsEntities (op : String) (j : Json) : Option (Except String Json) :=
       | .error e => pure (rejToJson e)
       | .ok ents' =>
         let els := chainsOfRows root (!ents'.isEmpty) survey
-        let nsp : Option Str := match j.getObjVal? "namespaces" with | .ok (.str x) => some x.toList | _ => none
+        let settings : Cells := match j.getObjVal? "settings" with
+          | .ok v => (match pairList v with | .ok l => l | .error _ => []) | _ => []
+        let nsp := Rows.get settings "namespaces"
         if !(ents'.all (refsResolve els root)) then
           pure (rejToJson (.unsupported "reference in an entity cell does not resolve (C03)"))
         else
-        match convert root (entitySub els root) nsp ents' survey with
+        match convert root (entitySub els root) settings ents' survey with
         | .error e => pure (rejToJson e)
         | .ok o => pure ((outToJson o).setObjVal! "customNs" (pairsToJson (customNs nsp !ents'.isEmpty)))
   | "entities.spec" => some do
@@ -52,7 +55,9 @@ def opsEntities (op : String) (j : Json) : Option (Except String Json) :=
       let els := chainsOfRows root (!ents.isEmpty) survey
       let userNs : Option (Str × Str) := match j.getObjVal? "user_entities_ns" with
         | .ok (.str x) => some (Spec.S "entities", x.toList) | _ => none
-      match Spec.form root (entitySub els root) (String.ofList (getStrD j "version" "")) userNs ents survey with
+      let m : Spec.MetaCfg := { audit := getBoolD j "audit" false, omitInstanceID := getBoolD j "omit_instanceID" false,
+                                instanceName := getBoolD j "instance_name" false }
+      match Spec.form root (entitySub els root) (String.ofList (getStrD j "version" "")) userNs m ents survey with
       | none => pure (Json.mkObj [("outcome", "rejected")])
       | some o => pure (outToJson o)
   | "entities.names" => some do
